@@ -25,6 +25,15 @@ pub fn verify_oods<Layout: LayoutTrait>(
     trace_domain_size: &Felt,
     trace_generator: &Felt,
 ) -> Result<(), OodsVerifyError> {
+    // The mask values followed by the CONSTRAINT_DEGREE composition openings: the same
+    // positions the DEEP quotient (eval_oods_polynomial) reads later.
+    if oods.len() != Layout::MASK_SIZE + Layout::CONSTRAINT_DEGREE {
+        return Err(OodsVerifyError::InvalidLength {
+            expected: Layout::MASK_SIZE + Layout::CONSTRAINT_DEGREE,
+            actual: oods.len(),
+        });
+    }
+
     let composition_from_trace = Layout::eval_composition_polynomial(
         interaction_elements,
         public_input,
@@ -56,6 +65,8 @@ use thiserror::Error;
 pub enum OodsVerifyError {
     #[error("oods invalid {expected} - {actual}")]
     EvaluationInvalid { expected: Felt, actual: Felt },
+    #[error("invalid number of oods values: expected {expected}, actual {actual}")]
+    InvalidLength { expected: usize, actual: usize },
     #[error("CompositionPolyEval Error")]
     CompositionPolyEvalError(#[from] CompositionPolyEvalError),
 }
@@ -68,6 +79,8 @@ use thiserror_no_std::Error;
 pub enum OodsVerifyError {
     #[error("oods invalid {expected} - {actual}")]
     EvaluationInvalid { expected: Felt, actual: Felt },
+    #[error("invalid number of oods values: expected {expected}, actual {actual}")]
+    InvalidLength { expected: usize, actual: usize },
     #[error("CompositionPolyEval Error")]
     CompositionPolyEvalError(#[from] CompositionPolyEvalError),
 }
